@@ -2,7 +2,7 @@
     advertise.  Statements quoted by type from ProtoFacts.v, NpFactsA.v and
     ViewFacts.v (printed by [Check] below). *)
 From MW Require Import Base Store Monad Usage Server Websocket Service Findings Inv Obs
-     ProtoFacts NpFactsA StepFacts ViewFacts ViewFactsR Inst_Params.
+     ProtoFacts NpFactsA StepFacts ViewFacts ViewFactsR ViewFactsX Inst_Params.
 Local Open Scope list_scope.
 
 (** `list` is answered (after the ack) by exactly one `nameplates` frame carrying
@@ -99,3 +99,73 @@ Example C18_nonvacuous :
   welcome (gen_cfg true true (Some 56)) = welcome (gen_cfg false false None) /\
   0 < exp (gen_cfg true true (Some 56)).
 Proof. split; [reflexivity|]. split; [reflexivity|]. split; [reflexivity|]. exact (gen_cfg_exp _ _ _). Qed.
+
+(** * crashes after a commit, across configurations (quoted by type from ViewFactsX.v).  The k-th commit
+    names different instants with and without a usage database; the crash index is TRANSLATED: [translate_k]
+    is the least index under the second configuration at which the process has made the same number of
+    CHANNEL commits ([crash_match]); [translate] rewrites every crash index of a history along the two runs. *)
+
+(** equal erased logs and equally many channel commits before the crash points: the same channel files *)
+Theorem C18_crash_same_files : ltac:(let t := type of crash_same_files in exact t).
+Proof. exact crash_same_files. Qed.
+Check C18_crash_same_files.
+Print Assumptions C18_crash_same_files.
+
+(** one crash event, translated index: related states again; same exception / validity / boot frames; the frames of
+    the second run are a prefix of the first's (the first may have sent more before dying) *)
+Theorem C18_crash_translate_step : ltac:(let t := type of crash_translate_step in exact t).
+Proof. exact crash_translate_step. Qed.
+Check C18_crash_translate_step.
+Print Assumptions C18_crash_translate_step.
+
+(** ... for ANY matching index, not only the least *)
+Theorem C18_crash_translate_step_any : ltac:(let t := type of crash_translate_step_any in exact t).
+Proof. exact crash_translate_step_any. Qed.
+Check C18_crash_translate_step_any.
+Print Assumptions C18_crash_translate_step_any.
+
+(** the translated index is the least matching one *)
+Theorem C18_translate_k_least : ltac:(let t := type of translate_k_least in exact t).
+Proof. exact translate_k_least. Qed.
+Check C18_translate_k_least.
+Print Assumptions C18_translate_k_least.
+
+(** the translated history differs from the original only in crash indices *)
+Theorem C18_translate_shape : ltac:(let t := type of translate_shape in exact t).
+Proof. exact translate_shape. Qed.
+Check C18_translate_shape.
+Print Assumptions C18_translate_shape.
+
+(** ... and is the original when it has no crash *)
+Theorem C18_translate_no_crash : ltac:(let t := type of translate_no_crash in exact t).
+Proof. exact translate_no_crash. Qed.
+Check C18_translate_no_crash.
+Print Assumptions C18_translate_no_crash.
+
+(** history level, ALL event kinds, any crash index: there is a history differing only in crash indices whose run
+    under the second configuration ends in the same view (and timer), with the same exceptions and validity, and
+    frames that agree event by event (prefix for crash events) *)
+Theorem C18_config_erasure_with_crashes : ltac:(let t := type of config_erasure_with_crashes in exact t).
+Proof. exact config_erasure_with_crashes. Qed.
+Check C18_config_erasure_with_crashes.
+Print Assumptions C18_config_erasure_with_crashes.
+
+(** non-vacuity: release crashed at index 2 with a usage database = index 1 without; the untranslated index differs *)
+Theorem C18_crash_translate_nonvacuous : ltac:(let t := type of crash_translate_nonvacuous in exact t).
+Proof. exact crash_translate_nonvacuous. Qed.
+Check C18_crash_translate_nonvacuous.
+Print Assumptions C18_crash_translate_nonvacuous.
+
+(** the other direction: 0,1,2,3 -> 0,1,3,4 *)
+Theorem C18_crash_translate_degenerate : ltac:(let t := type of crash_translate_degenerate in exact t).
+Proof. exact crash_translate_degenerate. Qed.
+Check C18_crash_translate_degenerate.
+Print Assumptions C18_crash_translate_degenerate.
+
+(** full frame equality at the least matching index is false (bind crashed at its usage commit: the ack was sent
+    in one run only): prefix is what holds *)
+Theorem C18_crash_frames_equal_refuted : ltac:(let t := type of crash_frames_equal_refuted in exact t).
+Proof. exact crash_frames_equal_refuted. Qed.
+Check C18_crash_frames_equal_refuted.
+Print Assumptions C18_crash_frames_equal_refuted.
+
